@@ -750,14 +750,85 @@ def relayer_cases(rng, n):
 IFLIST = [n for n, _, _ in IFACES]
 
 
-async def drive_history(ops):
+async def connect_via_pyatv(order, log):
+    """The REAL pyatv.connect() with pyatv.PROTOCOLS replaced by fake protocol-method objects (no network):
+    every fake setup() keeps the Core it is given and yields recording stubs that implement every member of
+    every relayed interface.  Returns (device object, {protocol name: Core}, restore())."""
+    import pyatv
+    from pyatv import conf
+    from pyatv.core import SetupData
+    from pyatv.support import http as http_mod
+    cores = {}
+
+    class SM:
+        session = None
+
+        async def close(self):
+            return None
+
+    async def create_session(session=None):
+        return SM()
+
+    def mk_setup(p):
+        def setup(core):
+            cores[p] = core
+
+            async def _connect():
+                return True
+            ifs = {iface_cls(i): make_stub(i, p, [m for m, _ in public_members(iface_cls(i))], log) for i in RELAYED}
+            yield SetupData(P(p), _connect, lambda: set(), lambda: {}, ifs, set())
+        return setup
+
+    class PM:
+        def __init__(self, setup):
+            self.setup = setup
+
+    saved = dict(pyatv.PROTOCOLS)
+    saved_cs = http_mod.create_session
+    pyatv.PROTOCOLS.clear()
+    for p in order:
+        pyatv.PROTOCOLS[P(p)] = PM(mk_setup(p))
+    http_mod.create_session = create_session
+
+    def restore():
+        pyatv.PROTOCOLS.clear()
+        pyatv.PROTOCOLS.update(saved)
+        http_mod.create_session = saved_cs
+    try:
+        cfg = conf.AppleTV(IPv4Address("127.0.0.1"), "verif")
+        for p in order:
+            cfg.add_service(conf.ManualService("id-" + p, P(p), 1000 + len(p), {}))
+        atv = await pyatv.connect(cfg, asyncio.get_event_loop())
+    except BaseException:
+        restore()
+        raise
+    return atv, cores, restore
+
+
+async def drive_history(ops, via_connect=None):
     """ops: list of ("T", proto, [iface name | None ...]) / ("R", k).  Runs them on a real FacadeAppleTV in
     which every protocol registers every relayed interface implementing everything; after every op every
-    interface is probed with one call.  Returns per-op results, per-op holder lists and per-op probe results."""
+    interface is probed with one call.  Returns per-op results, per-op holder lists and per-op probe results.
+    via_connect = list of protocols: the device object is built by the real pyatv.connect() from fake
+    protocols (in that order) and every takeover is made through the core.takeover callable that
+    connect() handed to THAT protocol (ops of protocols outside the list must not occur)."""
     from pyatv import exceptions
     log = []
-    tab = {p: {i: {"style": "sub", "ov": [m for m, _ in public_members(iface_cls(i))]} for i in RELAYED} for p in PROTOS}
-    atv, stubs = await facade_for(tab, PROTOS, log, {}, {})
+    restore = None
+    if via_connect is None:
+        tab = {p: {i: {"style": "sub", "ov": [m for m, _ in public_members(iface_cls(i))]} for i in RELAYED} for p in PROTOS}
+        atv, stubs = await facade_for(tab, PROTOS, log, {}, {})
+    else:
+        atv, cores, restore = await connect_via_pyatv(via_connect, log)
+    try:
+        return await _drive_history(ops, atv, log, None if via_connect is None else cores)
+    finally:
+        if restore:
+            restore()
+
+
+async def _drive_history(ops, atv, log, cores):
+    from pyatv import exceptions
     toks = []
     res, states, probes = [], [], []
 
@@ -778,7 +849,10 @@ async def drive_history(ops):
         if o[0] == "T":
             keys = [iface_cls(i) if i else Unknown for i in o[2]]
             try:
-                toks.append(atv.takeover(P(o[1]), *keys))
+                if cores is None:
+                    toks.append(atv.takeover(P(o[1]), *keys))
+                else:
+                    toks.append(cores[o[1]].takeover(*keys))     # the callable connect() bound for this protocol
                 res.append("RTaken")
             except exceptions.InvalidStateError:
                 toks.append(None)
@@ -793,13 +867,17 @@ async def drive_history(ops):
     return res, states, probes
 
 
-def judge_history(ops, res, probes):
+def judge_history(ops, res, probes, connected=None):
     """The property text on a history: all-or-nothing takeover, single holder, release gives the interface
     back, the holder receives the calls.  Independent bookkeeping (no model code)."""
     holder = {i: None for i in IFLIST}
     toks = []
     used = set()
-    if any(probes[0][i] != [text_order(i)[0]] for i in RELAYED):
+    connected = connected or PROTOS
+
+    def default(i):
+        return [p for p in text_order(i) if p in connected][0]
+    if any(probes[0][i] != [default(i)] for i in RELAYED):
         return None        # routing without any takeover is already wrong: reported by the routing cases
     probes = probes[1:]
     for n, o in enumerate(ops):
@@ -825,7 +903,7 @@ def judge_history(ops, res, probes):
                 return None    # double release of a token: outside the property (side condition)
             used.add(k)
         for i in RELAYED:
-            exp = holder[i] or text_order(i)[0]
+            exp = holder[i] or default(i)
             if probes[n][i] != [exp]:
                 if o[0] == "T" and res[n] == "RInvalidState":
                     return ("C01:takeover:no-rollback", n)
@@ -833,7 +911,7 @@ def judge_history(ops, res, probes):
     return None
 
 
-def random_history(rng, maxlen):
+def random_history(rng, maxlen, protos=PROTOS):
     ops = []
     ntok = 0
     released = []
@@ -851,7 +929,7 @@ def random_history(rng, maxlen):
             pool = rng.sample(IFLIST, min(len(IFLIST), 4))
             ifs = [rng.choice(pool) for _ in range(n)] if rng.random() < 0.3 else rng.sample(pool, min(n, len(pool)))
             ifs = [None if rng.random() < 0.08 else i for i in ifs]
-            ops.append(("T", rng.choice(PROTOS), ifs))
+            ops.append(("T", rng.choice(protos), ifs))
             ntok += 1
     return ops
 
@@ -934,7 +1012,10 @@ def run(ctx):
                 "protocols (connect order shuffled), every public member of the 9 interfaces + push updater, takeover "
                 "holder none + each protocol (quick tier: two random ones for the random tables), random feature sets/states for the play_url gate; (b) bare Relayer "
                 "objects with arbitrary priority lists and explicit priority argument; (c) takeover/release histories "
-                "on the real FacadeAppleTV incl. failing takeovers, unknown keys, duplicate keys, double releases. "
+                "on the real FacadeAppleTV incl. failing takeovers, unknown keys, duplicate keys, double releases; "
+                "(d) the real pyatv.connect() with PROTOCOLS replaced by fakes that keep their Core, all 31 subsets: every "
+                "protocol takes over through ITS OWN core.takeover (the partial bound in connect()), a second one fails and "
+                "must roll back, release; plus random histories. "
                 "non-trivial = some instance executed the call / some takeover succeeded; distinct by canonical case")
     # ---------------------------------------------------------------- corpus first
     for fname, d in common.load_corpus(ctx.pid):
@@ -1074,6 +1155,36 @@ def run(ctx):
             ctx.case(("history", key), nontrivial="RTaken" in res[:n + 1])
             hcases.append(coq_history(ops[:n + 1], res[:n + 1], states[n]))
             hmeta.append({"ops": ops[:n + 1], "results": res[:n + 1], "holders": states[n]})
+    # ---------------------------------------------------------------- (d) the same through the real pyatv.connect()
+    # every takeover is made through the core.takeover callable that connect() bound for THAT protocol
+    STREAM = ["Audio", "Metadata", "PushUpdater", "RemoteControl"]       # what RAOP takes over while streaming
+    for S in subsets():
+        order = list(S)
+        rng.shuffle(order)
+        ops = []
+        for p in order:
+            k = sum(1 for o in ops if o[0] == "T")
+            q = rng.choice(order)
+            ops += [("T", p, list(STREAM)), ("T", q, ["Stream", "RemoteControl"]), ("R", k)]
+        hl = [ops] + [random_history(rng, 6, order) for _ in range(1 if not ctx.thorough else 6)]
+        for ops in hl:
+            res, states, probes = vloop.run(drive_history, ops, order)
+            ctx.traces += 1
+            v = judge_history(ops, res, probes, order)
+            if v:
+                ctx.violation(v[0].replace("C01:takeover:", "C01:connect-takeover:"),
+                              "pyatv.connect with %s; takeovers through each protocol's own core.takeover: %s: %s at op %d" % (order, ops, v[0], v[1]),
+                              {"kind": "history", "via_connect": order, "ops": ops, "results": res,
+                               "holders_after_each_op": states, "probes": probes})
+            ctx.count("connect-history")
+            for n in range(len(ops)):
+                key = json.dumps([order, ops[:n + 1]])
+                if key in hseen:
+                    continue
+                hseen.add(key)
+                ctx.case(("connect-history", key), nontrivial="RTaken" in res[:n + 1])
+                hcases.append(coq_history(ops[:n + 1], res[:n + 1], states[n]))
+                hmeta.append({"via_connect": order, "ops": ops[:n + 1], "results": res[:n + 1], "holders": states[n]})
     run_cases_in_coq(ctx, "history", HEADER, "list op * list opres * list (list proto)", "check_history", hcases,
                      lambda b: hmeta[b], per=600)
     ctx.note("histories done %.1fs" % (time.time() - ctx.t0))
@@ -1130,10 +1241,13 @@ async def replay_one(r, rows, verbose=True):
     quiet()
     if r.get("kind") == "history":
         ops = [tuple(o) for o in r["ops"]]
-        res, states, probes = await drive_history(ops)
-        v = judge_history(ops, res, probes)
+        res, states, probes = await drive_history(ops, r.get("via_connect"))
+        v = judge_history(ops, res, probes, r.get("via_connect"))
         if verbose:
             print("history %s -> results %s, holders %s" % (ops, res, states[-1] if states else None))
+        if v and r.get("via_connect"):
+            return (v[0].replace("C01:takeover:", "C01:connect-takeover:"),
+                    "pyatv.connect with %s, takeovers through each protocol's own core.takeover: fails at op %d" % (r["via_connect"], v[1]))
         return (v[0], "history fails at op %d" % v[1]) if v else None
     if r.get("kind") == "route":
         order = r["connected_in_order"]
